@@ -3,6 +3,7 @@ package rules
 import (
 	"fmt"
 	"go/token"
+	"go/types"
 	"sort"
 	"strings"
 
@@ -157,4 +158,104 @@ func c01status(c *Ctx) {
 	sort.Strings(bad)
 	c.R.Check(len(bad) == 0 && writers >= 2, rule, respPkg+".WithCodeResponseWriter.Code#writers", "the recorded status is written only by the recorder's constructor and its WriteHeader", "-", fmt.Sprintf("%d writers; %v", writers, bad), bad, writers)
 	c.R.Min(rule, 3, "BreakerHandler decision, WriteHeader, writers of Code")
+}
+
+// c01classify (R11, round 5): acceptability predicates classify errors by errors.Is/As semantics. In every function
+// of the module that serves as a breaker acceptability predicate (a func(error) bool named …cceptable…, or a literal
+// handed to a Do…WithAcceptable… / WithAcceptable call) the error is compared with a non-nil error value only
+// through errors.Is / errors.As / errorx.In, never by identity (`err == sentinel`, `switch err`): a handler that wraps
+// the sentinel (fmt.Errorf("…: %w", context.DeadlineExceeded)) would otherwise be recorded as a success, and under
+// sustained failure of that kind the breaker never opens (seed r5-C01-3; its sibling convertError uses errors.Is).
+func c01classify(c *Ctx) {
+	rule := "C01.R11"
+	errT := types.Universe.Lookup("error").Type()
+	isPred := func(f *ssa.Function) bool {
+		sig := f.Signature
+		if sig.Recv() != nil && sig.Params().Len() != 1 {
+			return false
+		}
+		return sig.Params().Len() == 1 && sig.Results().Len() == 1 && types.Identical(sig.Params().At(0).Type(), errT) &&
+			types.Identical(sig.Results().At(0).Type(), types.Typ[types.Bool])
+	}
+	preds := map[*ssa.Function]bool{}
+	for _, pk := range c.P.Pkgs {
+		rel := strings.TrimPrefix(pk.PkgPath, mod)
+		for _, f := range c.P.AllFuncs(rel) {
+			if isPred(f) && strings.Contains(strings.ToLower(f.Name()), "cceptable") {
+				preds[f] = true
+			}
+			for _, b := range f.Blocks {
+				for _, ins := range b.Instrs {
+					call, ok := ins.(ssa.CallInstruction)
+					if !ok {
+						continue
+					}
+					name := ""
+					if call.Common().IsInvoke() {
+						name = call.Common().Method.Name()
+					} else if sc := call.Common().StaticCallee(); sc != nil {
+						name = sc.Name()
+					}
+					if !strings.Contains(name, "Acceptable") {
+						continue
+					}
+					for _, a := range call.Common().Args {
+						if t := boundTarget(a); t != nil && isPred(t) {
+							preds[t] = true
+						}
+					}
+				}
+			}
+		}
+	}
+	var bad []string
+	for f := range preds {
+		if len(f.Params) == 0 {
+			continue
+		}
+		errP := f.Params[len(f.Params)-1]
+		fromErr := func(v ssa.Value) bool {
+			seen := map[ssa.Value]bool{}
+			var rec func(v ssa.Value) bool
+			rec = func(v ssa.Value) bool {
+				if v == nil || seen[v] {
+					return false
+				}
+				seen[v] = true
+				switch x := v.(type) {
+				case *ssa.Parameter:
+					return x == errP
+				case *ssa.Phi:
+					for _, e := range x.Edges {
+						if rec(e) {
+							return true
+						}
+					}
+				case *ssa.ChangeInterface:
+					return rec(x.X)
+				case *ssa.MakeInterface:
+					return rec(x.X)
+				}
+				return false
+			}
+			return rec(v)
+		}
+		isNil := func(v ssa.Value) bool {
+			k, ok := v.(*ssa.Const)
+			return ok && k.Value == nil
+		}
+		for _, b := range f.Blocks {
+			for _, ins := range b.Instrs {
+				bo, ok := ins.(*ssa.BinOp)
+				if !ok || (bo.Op != token.EQL && bo.Op != token.NEQ) {
+					continue
+				}
+				if (fromErr(bo.X) && !isNil(bo.Y)) || (fromErr(bo.Y) && !isNil(bo.X)) {
+					bad = append(bad, fmt.Sprintf("%s: %s compares the error with a sentinel by identity (== / switch): a wrapped sentinel is classified as acceptable and recorded as a success", c.P.Pos(bo.Pos()), funcDisplay(f)))
+				}
+			}
+		}
+	}
+	sort.Strings(bad)
+	c.R.Check(len(bad) == 0 && len(preds) >= 5, rule, "breaker acceptability predicates#classification", "acceptability predicates compare the error with sentinels only through errors.Is / errors.As / errorx.In (identity comparison misses wrapped errors)", "-", fmt.Sprintf("%d predicates; %s", len(preds), strings.Join(bad, "; ")), bad, len(preds))
 }
